@@ -45,6 +45,10 @@ Substring1(s, a) == IF a >= 0 THEN (IF a > Size(s) THEN ErrR ELSE IF a = Size(s)
 RECURSIVE Concat(_)
 Concat(ss) == IF ss = <<>> THEN <<>> ELSE ss[1] \o Concat(Tail(ss))
 \* replace all non-overlapping occurrences left to right (t non-empty)
+\* an empty pattern occurs at every boundary between code points (and at both ends): the replacement is inserted
+\* there - the reading every plain-string library gives ("abc" / "" / "-" = "-a-b-c-")
+RECURSIVE Interleave(_,_)
+Interleave(s, u) == IF s = <<>> THEN u ELSE u \o <<s[1]>> \o Interleave(Tail(s), u)
 RECURSIVE Replace(_,_,_)
 Replace(s, t, u) == IF s = <<>> THEN <<>> ELSE IF MatchAt(s, t, 1) THEN u \o Replace(SubSeq(s, Len(t) + 1, Len(s)), t, u) ELSE <<s[1]>> \o Replace(Tail(s), t, u)
 \* split at every non-overlapping occurrence of sep (non-empty): always at least one piece
